@@ -688,3 +688,178 @@ class HandleStateUpdates(FnCheck):
     def post(self, ex, st0, st, outcome, b):
         if outcome[0] == 'exc':
             ex.oblige(st, 'never_raises', z3.BoolVal(False), info={'exc': repr(outcome[1])})
+
+
+@register
+class WriteEntity(FnCheck):
+    id = 'C02.write_entity'
+    prop = 'C02'
+    target = f'{TR}:StateTransactionBase.write_entity'
+    field_types = {'StateVersion': 'int', 'DescriptorVersion': 'int', 'is_multi_state': 'bool'}
+    doc = ('StateTransactionBase.write_entity(entity) with version adjustment: the state queued for commit is a copy of '
+           'the entity\'s state whose DescriptorVersion equals the current DescriptorVersion of its descriptor in the MDIB '
+           '(also when the state already exists) and whose StateVersion is the stored StateVersion + 1 (existing '
+           'state) or the remembered version (re-created state, C02.set_version); it is queued under the descriptor '
+           'handle together with the stored state; the entity itself is not changed')
+    trusted = ('copy.deepcopy returns an equal, disjoint object',)
+
+    def setup(self, b):
+        st = b.st
+        self.dv = b.int('descriptor_version_in_mdib')
+        self.sv_old = b.int('stored_state_version')
+        self.has_old = b.bool('state_exists_in_mdib')
+        self.descr = b.obj('descriptor', DescriptorVersion=self.dv)
+        self.old = b.obj('stored_state', StateVersion=self.sv_old)
+        self.handle = b.str('descriptor_handle')
+        self.estate = b.obj('entity_state', DescriptorHandle=self.handle, StateVersion=b.int('entity_state_version'),
+                            DescriptorVersion=b.int('entity_descriptor_version'))
+        self.entity = b.obj('entity', state=self.estate, handle=self.handle, is_multi_state=b.bool('is_multi_state'))
+        self.upd = b.obj('state_updates')
+        st.assume(z3.Select(st.get_arr('C'), self.upd.e) == b.ex.ctx.builtin_class_ids['dict'])
+        st.assume(z3.Select(st.get_arr('DN'), self.upd.e) >= 0)
+        self.states_tbl = b.obj('states_table', descriptor_handle=b.obj('states.descriptor_handle'))
+        self.descr_tbl = b.obj('descriptions_table', handle=b.obj('descriptions.handle'))
+        self.mdib = b.obj('mdib', states=self.states_tbl, descriptions=self.descr_tbl)
+        self.o = b.obj('self', cls=(TR, 'StateTransactionBase'), _mdib=self.mdib, _state_updates=self.upd)
+        b.distinct(self.o, self.mdib, self.upd, self.entity, self.estate, self.old, self.descr, self.states_tbl, self.descr_tbl)
+        self.adjust = b.bool('adjust_version_counter')
+        st.ghost['log'] = ()
+        return self.o, [self.entity], {'adjust_version_counter': self.adjust}
+
+    def callees(self, ex):
+        def get_one(ex_, st, args, kwargs):
+            recv = st.ghost.get('c:recv')
+            st.ghost['log'] += (('get_one', recv, st.box(args[0])),)
+            if 'allow_none' not in kwargs:     # descriptions.handle.get_one(handle): the descriptor must exist
+                return self.descr
+            return vany(z3.If(self.has_old.e, Val.ref(self.old.e), Val.none), maybe_none=True)
+
+        def deep(ex_, st, args, kwargs):
+            src = ex_.concrete_kind(st, args[0], ('ref',))
+            c = st.alloc('StateCopy')
+            for f in ('StateVersion', 'DescriptorVersion', 'DescriptorHandle'):
+                st.set_arr('f:' + f, z3.Store(st.get_arr('f:' + f), c.e, z3.Select(st.get_arr('f:' + f), src.e)))
+            st.ghost['c:copy'] = (c.e, st.box(args[0]))
+            return c
+
+        def set_version(ex_, st, args, kwargs):
+            st.ghost['log'] += (('set_version', st.ghost.get('c:recv'), st.box(args[0])),)
+            return NONE
+
+        def item(ex_, st, args, kwargs):
+            o = st.alloc('TransactionItem')
+            vals = dict(zip(('old', 'new'), args))
+            vals.update(kwargs)
+            st.write_field(o, 'old', vals['old'])
+            st.write_field(o, 'new', vals['new'])
+            return o
+        return {'*.get_one': Pure(get_one, name='index get_one (C11): stored state / descriptor of the handle'),
+                'copy.deepcopy': Pure(deep, name='copy.deepcopy', trusted=True),
+                '*.set_version': Pure(set_version, name='table.set_version (C02.set_version)'),
+                f'{TR}:TransactionItem': Pure(item, name='TransactionItem(old, new)'),
+                'TransactionItem': Pure(item, name='TransactionItem(old, new)'),
+                '*._is_correct_state_type': Pure(lambda e, s, a, k: vbool(fresh(BoolS, 'correct_type')), name='_is_correct_state_type')}
+
+    def hooks(self, ex):
+        class H:
+            tracked_names = ()
+
+            def on_call(self, ex_, st, fv, keys, args, kwargs, node):
+                if fv.t == 'method':
+                    st.ghost['c:recv'] = st.box(fv.recv)
+                return None
+        return H()
+
+    def post(self, ex, st0, st, outcome, b):
+        if outcome[0] == 'exc':
+            ex.oblige(st, 'only_api_usage_errors', z3.BoolVal(outcome[1].cls == 'ApiUsageError'), info={'exc': repr(outcome[1])})
+            ex.oblige(st, 'refused_entity_queues_nothing', z3.Select(st.get_arr('DK'), self.upd.e) == z3.Select(st0.get_arr('DK'), self.upd.e))
+            return
+        key = Val.str(self.handle.e)
+        dk, dv = z3.Select(st.get_arr('DK'), self.upd.e), z3.Select(st.get_arr('DV'), self.upd.e)
+        ex.oblige(st, 'queued_under_the_descriptor_handle', z3.Select(dk, key))
+        item = Val.oid(z3.Select(dv, key))
+        new = z3.Select(st.get_arr('f:new'), item)
+        old = z3.Select(st.get_arr('f:old'), item)
+        cp = st.ghost.get('c:copy')
+        ex.oblige(st, 'queued_state_is_a_copy_of_the_entity_state', z3.And(new == Val.ref(cp[0]), cp[1] == Val.ref(self.estate.e))
+                  if cp else z3.BoolVal(False))
+        ex.oblige(st, 'queued_with_the_stored_state', old == z3.If(self.has_old.e, Val.ref(self.old.e), Val.none))
+        if cp:
+            F = lambda n: Val.i(z3.Select(st.get_arr('f:' + n), cp[0]))   # noqa: E731
+            ex.oblige(st, 'descriptor_version_follows_the_descriptor', z3.Implies(self.adjust.e, F('DescriptorVersion') == self.dv.e))
+            ex.oblige(st, 'existing_state_version_incremented_by_one', z3.Implies(z3.And(self.adjust.e, self.has_old.e),
+                                                                              F('StateVersion') == self.sv_old.e + 1))
+            names = [n for n, _, _ in st.ghost['log']]
+            sv_calls = [x for x in st.ghost['log'] if x[0] == 'set_version']
+            ex.oblige(st, 'recreated_state_takes_the_remembered_version', z3.Implies(
+                z3.And(self.adjust.e, z3.Not(self.has_old.e)),
+                z3.And(z3.BoolVal(len(sv_calls) == 1), sv_calls[0][2] == Val.ref(cp[0]),
+                       sv_calls[0][1] == Val.ref(self.states_tbl.e)) if len(sv_calls) == 1 else z3.BoolVal(False)))
+        for f in ('StateVersion', 'DescriptorVersion'):
+            ex.oblige(st, f'entity_state_{f}_unchanged', z3.Select(st.get_arr('f:' + f), self.estate.e) == z3.Select(st0.get_arr('f:' + f), self.estate.e))
+
+
+@register
+class IncrementParentVersion(FnCheck):
+    id = 'C02.increment_parent_descriptor_version'
+    prop = 'C02'
+    target = f'{TR}:DescriptorTransaction._increment_parent_descriptor_version'
+    field_types = {'DescriptorVersion': 'int'}
+    doc = ('_increment_parent_descriptor_version(result, child): when the child\'s parent exists in the MDIB its '
+           'DescriptorVersion is incremented by exactly one and a copy of the parent carrying that new version is '
+           'appended to result.descr_updated - whatever the list already holds, so the last reported copy of a parent '
+           'always shows its committed version - and its state is brought along; without a parent nothing happens')
+
+    def setup(self, b):
+        st = b.st
+        self.pv = b.int('parent_version')
+        self.has_parent = b.bool('parent_exists')
+        self.parent = b.obj('parent', DescriptorVersion=self.pv, Handle=b.str('parent_handle_value'))
+        self.child = b.obj('child', parent_handle=b.any('child.parent_handle', maybe_none=True))
+        self.upd_seq = z3.Const('descr_updated_seq', SeqVal)
+        self.upd = b.obj('descr_updated')
+        st.assume(z3.Select(st.get_arr('C'), self.upd.e) == b.ex.ctx.builtin_class_ids['list'])
+        st.assume(z3.Select(st.get_arr('L'), self.upd.e) == self.upd_seq)
+        self.proc = b.obj('proc', descr_updated=self.upd)
+        mdib = b.obj('mdib', descriptions=b.obj('descriptions', handle=b.obj('descriptions.handle')))
+        self.o = b.obj('self', cls=(TR, 'DescriptorTransaction'), _mdib=mdib)
+        b.distinct(self.o, self.proc, self.upd, self.parent, self.child, mdib)
+        st.ghost['log'] = ()
+        return self.o, [self.proc, self.child], {}
+
+    def callees(self, ex):
+        def get_one(ex_, st, args, kwargs):
+            st.ghost['c:asked'] = st.box(args[0])
+            return vany(z3.If(self.has_parent.e, Val.ref(self.parent.e), Val.none), maybe_none=True)
+
+        def corr(ex_, st, args, kwargs):
+            st.ghost['log'] += (('update_corresponding_state', st.box(args[0])),)
+            return NONE
+        return {'*.get_one': Pure(get_one, name='descriptions.handle.get_one(parent_handle, allow_none=True) (C11)'),
+                f'{TR}:DescriptorTransaction._update_corresponding_state': Pure(corr, name='_update_corresponding_state')}
+
+    def hooks(self, ex):
+        return CopyHooks()
+
+    def post(self, ex, st0, st, outcome, b):
+        if outcome[0] == 'exc':
+            ex.oblige(st, 'never_raises', z3.BoolVal(False), info={'exc': repr(outcome[1])})
+            return
+        if 'c:asked' in st.ghost:
+            ex.oblige(st, 'parent_looked_up_by_the_childs_parent_handle', st.ghost['c:asked'] == z3.Select(st0.get_arr('f:parent_handle'), self.child.e))
+        new_seq = st.list_seq(self.upd)
+        pv_now = Val.i(z3.Select(st.get_arr('f:DescriptorVersion'), self.parent.e))
+        ex.oblige(st, 'no_parent_no_change', z3.Implies(z3.Not(self.has_parent.e), z3.And(new_seq == self.upd_seq, pv_now == self.pv.e)))
+        ex.oblige(st, 'parent_version_incremented_by_one', z3.Implies(self.has_parent.e, pv_now == self.pv.e + 1))
+        copies = st.ghost.get('copies', ())
+        if copies:
+            c, src = copies[-1]
+            ex.oblige(st, 'copy_with_the_new_version_is_appended_to_the_report', z3.Implies(self.has_parent.e, z3.And(
+                src == self.parent.e, new_seq == z3.Concat(self.upd_seq, z3.Unit(Val.ref(c))),
+                Val.i(z3.Select(st.get_arr('f:DescriptorVersion'), c)) == self.pv.e + 1)))
+        else:
+            ex.oblige(st, 'copy_with_the_new_version_is_appended_to_the_report', z3.Not(self.has_parent.e))
+        log = st.ghost['log']
+        ex.oblige(st, 'state_of_the_parent_follows', z3.Implies(self.has_parent.e, z3.And(
+            z3.BoolVal(len(log) == 1), log[0][1] == Val.ref(self.parent.e)) if len(log) == 1 else z3.BoolVal(False)))
